@@ -27,6 +27,8 @@ const EXT_VERSION: &str = "1.0.30";
 enum In {
     /// aggregate status file absent / unreadable
     Unreadable,
+    /// aggregate status file present but not a JSON document (caught half-written, or damaged)
+    Garbled,
     /// file written by another agent version
     Mismatch,
     /// file of the expected version
@@ -73,10 +75,14 @@ fn new_status() -> StatusObj {
 
 fn apply(run: &mut Run, i: In) {
     match i {
-        In::Unreadable | In::Mismatch | In::Healthy => {
+        In::Unreadable | In::Garbled | In::Mismatch | In::Healthy => {
             match i {
                 In::Unreadable => {
                     let _ = std::fs::remove_file(STATUS_FILE);
+                }
+                In::Garbled => {
+                    let doc = status_doc(EXT_VERSION);
+                    std::fs::write(STATUS_FILE, &doc[..doc.len() / 2]).unwrap()
                 }
                 In::Mismatch => std::fs::write(STATUS_FILE, status_doc("9.9.9")).unwrap(),
                 _ => std::fs::write(STATUS_FILE, status_doc(EXT_VERSION)).unwrap(),
@@ -131,7 +137,7 @@ fn main() {
     ext_harness::logger::init_logger(base.join("logs").to_string_lossy().to_string(), "ProxyAgentExtension.log");
     let rt = tokio::runtime::Builder::new_current_thread().enable_all().start_paused(true).build().unwrap();
 
-    let alphabet_a = [In::Unreadable, In::Mismatch, In::Healthy];
+    let alphabet_a = [In::Unreadable, In::Mismatch, In::Healthy, In::Garbled];
     let alphabet_b = [In::SpawnErr, In::Exit1, In::Exit0, In::Healthy, In::Unreadable];
     let mut seqs: Vec<Vec<In>> = Vec::new();
     let la = if thorough { 7 } else { 5 };
@@ -145,7 +151,7 @@ fn main() {
         }
     }
     // run-length families: sustained conditions (throttle: 120) and failure runs around the threshold (20)
-    for x in [In::Unreadable, In::Mismatch, In::Healthy] {
+    for x in [In::Unreadable, In::Mismatch, In::Healthy, In::Garbled] {
         seqs.push(vec![x; 250]);
         for pre in [In::Healthy, In::Unreadable, In::Mismatch] {
             if pre != x {
@@ -156,7 +162,7 @@ fn main() {
         }
     }
     for k in [18usize, 19, 20, 21, 25] {
-        for f in [In::Unreadable, In::Mismatch, In::SpawnErr, In::Exit1] {
+        for f in [In::Unreadable, In::Garbled, In::Mismatch, In::SpawnErr, In::Exit1] {
             for after in [In::Healthy] {
                 let mut v = vec![In::Healthy, In::Healthy];
                 v.extend(vec![f; k]);
@@ -166,6 +172,17 @@ fn main() {
                 v.push(after);
                 seqs.push(v);
             }
+        }
+    }
+    // alternations: a condition that comes and goes every pass, every second pass, every fifth pass (the notifications of
+    // a state variable that did not change in between must stay throttled)
+    for (a, b) in [(In::Healthy, In::Unreadable), (In::Healthy, In::Garbled), (In::Mismatch, In::Unreadable), (In::Healthy, In::Mismatch), (In::Healthy, In::Exit1)] {
+        for period in [1usize, 2, 5] {
+            let mut v = Vec::new();
+            for k in 0..30 {
+                v.extend(vec![if k % 2 == 0 { a } else { b }; period]);
+            }
+            seqs.push(v);
         }
     }
     let (mut passes, mut events_seen) = (0u64, 0u64);
@@ -184,6 +201,8 @@ fn main() {
             let mut run_len = 0u32;
             let mut emitted_in_run: BTreeMap<String, u32> = BTreeMap::new();
             let short = seq.len() <= 8;
+            // state variable -> (class of its last emitted notification, pass of that emission)
+            let mut last_of_var: BTreeMap<&'static str, (String, usize)> = BTreeMap::new();
             for (pi, &i) in seq.iter().enumerate() {
                 apply(&mut run, i);
                 passes += 1;
@@ -220,6 +239,16 @@ fn main() {
                     let n = emitted_in_run.entry(c.clone()).or_insert(0);
                     *n += 1;
                     let allowed = 1 + (run_len - 1) / 120;
+                    // the two state variables of the aggregate pass: "the status file could be read" and "its version is the
+                    // expected one"; a notification equal to the previous one of its variable is a repetition, not a change,
+                    // and each variable is offered at most once per pass: fewer than 120 passes apart is too often
+                    let var = if c.starts_with("Error in reading") || c.starts_with("Successfully read") { "status-file-read" } else { "file-version" };
+                    if let Some((prev_c, prev_pass)) = last_of_var.get(var) {
+                        if *prev_c == c && pi - *prev_pass < 120 && pi != *prev_pass {
+                            res.violation("monitor:unchanged-notification-repeated", &format!("pass {}: the notification {:?} of state variable '{var}' was emitted again {} passes after its previous emission (pass {}) although no other notification of that variable came in between", pi + 1, c, pi - *prev_pass, *prev_pass + 1), case.clone());
+                        }
+                    }
+                    last_of_var.insert(var, (c.clone(), pi));
                     if *n > allowed {
                         res.violation("monitor:notification-repeated-too-often", &format!("pass {} (the {run_len}th consecutive pass with input {:?}): the notification {:?} has now been emitted {} times in this run (at most {allowed} allowed)", pi + 1, i, c, *n), case.clone());
                     }
@@ -238,6 +267,6 @@ fn main() {
     res.cov("notification_classes", json!(classes));
     res.cov("evaluations", passes);
     res.cov("exhaustive", true);
-    res.cov("monitor_rule", format!("every sequence of {la} monitor passes over {{status file absent, other version, healthy}} and of {lb} passes over {{setup tool not startable, exit 1, exit 0, healthy, absent}}, sustained conditions of 250 passes and 125 passes after a change, failure runs of 18..25 passes of four kinds followed by successes; the real report_proxy_agent_aggregate_status / report_proxy_agent_service_status (through the guarded verif_access module) with the real event logger on a paused clock"));
+    res.cov("monitor_rule", format!("every sequence of {la} monitor passes over {{status file absent, other version, healthy, present but not JSON}} and of {lb} passes over {{setup tool not startable, exit 1, exit 0, healthy, absent}}, sustained conditions of 250 passes and 125 passes after a change, failure runs of 18..25 passes of five kinds followed by successes, conditions alternating every 1/2/5 passes (30 phases); the real report_proxy_agent_aggregate_status / report_proxy_agent_service_status (through the guarded verif_access module) with the real event logger on a paused clock"));
     std::process::exit(res.finish());
 }
